@@ -28,6 +28,12 @@ Every SetDueNext(Full) creates a new requirement (`gen` counts them; the FULL_NE
 token). A full snapshot remembers the requirement in force when it was captured and its
 installation clears only that one.
 
+hashicorp/raft does not serialize installSnapshot with a local snapshot whose Persist is in flight:
+`install` is allowed after `snapBegin`. The captured snapshot is then superseded (`Pend.stale`): a
+full one is installed below the leader's snapshot; an incremental one finds its staging directory
+removed by fsmRestore and its Sink.Close takes the sink's fatal exit (the process restarts); a
+failed Persist makes OnRelease require a full snapshot because the staging directory is gone.
+
 `lvl` selects the code version: 0 = before `fix:` 6482ad3; 1 = with 6482ad3 (staged WALs dropped by
 the full-snapshot path when present, and by fsmRestore); 2 = with bb0a5c5 as well (the full-snapshot
 path always keeps a full snapshot required until one is installed); 3 = with the requirement tokens
@@ -66,6 +72,10 @@ database-changing entries / commands the log had after the newest snapshot at th
 inductive Pend where
   | full (c : C) (n cm : Nat) (g : Nat)
   | inc (n cm : Nat)
+  /-- a local snapshot that was captured before a snapshot received from the leader was installed
+  (raft's installSnapshot is not serialized with a Persist in flight): `c` is the database it holds
+  if it is a full one. Its index is below the installed snapshot's. -/
+  | stale (c : Option C)
 deriving DecidableEq, Repr
 
 structure SM where
@@ -147,6 +157,19 @@ inductive Op where
   | restart
 deriving DecidableEq, Repr
 
+/-- a snapshot installed with an index below the newest one's -/
+def insertBelowNewest (snaps : List Snap) (x : Snap) : List Snap :=
+  snaps.dropLast ++ x :: snaps.getLast?.toList
+
+/-- process start: Open removes wal-staging; raft restores the newest snapshot and replays the log
+after it (replaying a LOAD sets FULL_NEEDED again); the recorded modification time starts afresh -/
+def restartSM (s : SM) : SM × String :=
+  match resolve s.snaps, replay (resolve s.snaps) s.tail with
+  | some r, some c =>
+    ({ s with db := c, file := fileAfter r s.tail, staged := [], pend := none, applied := true,
+              modified := false, fullNeeded := s.fullNeeded || hasLoad s.tail, gen := s.gen + 1 }, "ok")
+  | _, _ => (s, "corrupt")
+
 /-- snapshotDueNext() = Full -/
 def fullDue (s : SM) : Bool := s.fullNeeded || s.snaps.isEmpty || s.modified
 
@@ -187,6 +210,19 @@ def snapEnd (lvl : Nat) (s : SM) (o : Outcome) : SM × String :=
     | .notInvoked => ({ s with pend := none }, "not-installed")
     | .failBefore => ({ s with pend := none }, "not-installed")
     | .failAfter => ({ s with staged := [], fullNeeded := true, gen := s.gen + 1, pend := none }, "not-installed")
+  | some (.stale c) =>
+    -- captured before a snapshot from the leader was installed (fsmRestore removed wal-staging)
+    match c, o with
+    | some a, .ok =>
+      -- a full snapshot: installed below the leader's; the requirement it was captured under is gone
+      ({ s with snaps := insertBelowNewest s.snaps (.full a), pend := none }, "installed")
+    | none, .ok =>
+      -- an incremental: Sink.Close cannot move the staging directory and takes its fatal exit
+      let (s', r) := restartSM { s with pend := none }
+      (s', if r = "ok" then "fatal-exit" else r)
+    | _, .notInvoked => ({ s with pend := none }, "not-installed")
+    -- OnRelease after a failed Persist finds no staging directory: SetDueNext(Full)
+    | _, _ => ({ s with fullNeeded := true, gen := s.gen + 1, pend := none }, "not-installed")
 
 /-- a snapshot taken through raft, both steps back to back -/
 def snapshot (lvl : Nat) (s : SM) (o : Outcome) : SM × String :=
@@ -216,23 +252,21 @@ def step (lvl : Nat) (s : SM) : Op → SM × String
       let s := { s with db := c, file := c, fullNeeded := true, gen := s.gen + 1, modified := true, cmds := s.cmds + 1, applied := true }
       ((snapshot lvl s .ok).1, "ok")
   | .install c =>
-    if s.pend.isSome then (s, "busy")
+    -- (the code before 6482ad3 is modelled only without a local snapshot in flight)
+    if lvl = 0 && s.pend.isSome then (s, "busy")
     else
+      let pend' := match s.pend with
+        | some (.full a _ _ _) => some (.stale (some a))
+        | some (.inc _ _) => some (.stale none)
+        | p => p
       let s := { s with snaps := s.snaps ++ [.full c], fullNeeded := false, db := c, file := c, modified := false,
-                        tail := [], cmds := 0 }
+                        tail := [], cmds := 0, pend := pend' }
       (if lvl ≥ 1 then { s with staged := [] } else s, "ok")
   | .reap =>
     match resolve s.snaps with
     | some c => if s.snaps.length > 1 then ({ s with snaps := [.full c] }, "ok") else (s, "ok")
     | none => (s, "ok")
-  | .restart =>
-    -- Open removes wal-staging; raft restores the newest snapshot and replays the log after it
-    -- (replaying a LOAD sets FULL_NEEDED again); the recorded modification time starts afresh
-    match resolve s.snaps, replay (resolve s.snaps) s.tail with
-    | some r, some c =>
-      ({ s with db := c, file := fileAfter r s.tail, staged := [], pend := none, applied := true,
-                modified := false, fullNeeded := s.fullNeeded || hasLoad s.tail, gen := s.gen + 1 }, "ok")
-    | _, _ => (s, "corrupt")
+  | .restart => restartSM s
 
 def run (lvl : Nat) (s : SM) (ops : List Op) : SM := ops.foldl (fun s o => (step lvl s o).1) s
 
